@@ -783,7 +783,7 @@ func jsonOp(t *rapid.T, b, other []byte, typeDoc bool) ([]byte, string) {
 // mutate applies 1..4 mutations of the family given by format ("json",
 // "jsontype", "msgpack") and returns the result with the list of operators used.
 func mutate(t *rapid.T, format string, b, other []byte) ([]byte, []string) {
-	n := rapid.IntRange(1, 4).Draw(t, "nmut")
+	n := rapid.SampledFrom([]int{1, 1, 1, 2, 2, 3, 4}).Draw(t, "nmut")
 	var ops []string
 	for i := 0; i < n; i++ {
 		var l string
